@@ -135,10 +135,44 @@ def normObs (obs : String) : String := " ".intercalate ((tokens obs).map normPan
 /-- the scoring function and index sequences of a legal case -/
 def Case.S (c : Case) : Matrix := matOf c.la c.mat.length
 
-/-- hypothesis of C08: every gap score is non-positive -/
+/-- hypothesis of C08: every gap score is non-positive.  The gap scores are the entries
+    `a[x][0]` and `a[0][x]` for the letters `x` of the alphabet; when the matrix is larger
+    than the alphabet its further rows and columns belong to no letter and are not gap scores
+    (the theorems need the hypothesis only for the letters that occur, `GapsNonPos`). -/
 def gapsNonPos (c : Case) : Bool :=
   let S := c.S
-  (List.range c.mat.length).all fun x => decide (S x 0 ≤ 0) && decide (S 0 x ≤ 0)
+  (List.range (min c.alpha.length c.mat.length)).all fun x => decide (S x 0 ≤ 0) && decide (S 0 x ≤ 0)
+
+/-- shape class of the matrix relative to the alphabet (`let = len(a)`, `n = alpha.Len()`):
+    the legal classes `exact` (`let = n`), `oversized+1`, `+2`, `+3..` (square, `let > n`), and
+    the ill-typed ones — `let < n`: `empty`, `undersized-square`, `short` (not square);
+    `let ≥ n` with a row of another length: `rect` (all rows of one length ≠ `let`: wide or
+    tall), `ragged-in-alphabet-rows` (a bad row among the first `n`), `ragged-beyond-alphabet-rows`
+    (all bad rows are extra rows of an oversized matrix). -/
+def shapeClass (c : Case) : String :=
+  let n := c.alpha.length
+  let k := c.mat.length
+  let sq := isSquare c.mat
+  if k == 0 then "empty"
+  else if k < n then (if sq then "undersized-square" else "short")
+  else if sq then
+    (if k == n then "exact" else if k == n + 1 then "oversized+1" else if k == n + 2 then "oversized+2"
+     else "oversized+3..")
+  else
+    let l0 := (c.mat.headD []).length
+    if c.mat.all (fun row => row.length == l0) then (if l0 > k then "rect-wide" else "rect-tall")
+    else if (c.mat.take n).any (fun row => row.length != k) then "ragged-in-alphabet-rows"
+    else "ragged-beyond-alphabet-rows"
+
+/-- content class of a legal matrix on the block the alphabet addresses -/
+def contentTags (c : Case) : List String :=
+  let S := c.S
+  let idx := List.range (min c.alpha.length c.mat.length)
+  let sym := idx.all fun x => idx.all fun y => S x y == S y x
+  let zeroGaps := idx.all fun x => S x 0 == 0 && S 0 x == 0
+  let const := idx.all fun x => idx.all fun y => S x y == S 0 0
+  [if sym then "mat-symmetric" else "mat-asymmetric"] ++
+    (if zeroGaps then ["mat-zero-gaps"] else []) ++ (if const then ["mat-ties-everywhere"] else [])
 
 def lenTag (n : Nat) : String :=
   if n == 0 then "len0" else if n ≤ 3 then "len1-3" else if n ≤ 6 then "len4-6"
@@ -146,5 +180,8 @@ def lenTag (n : Nat) : String :=
 
 def opTag (c : Case) : String :=
   match c.al with | .nw => "nw" | .sw => "sw" | .fit => "fit"
+
+/-- `<aligner>:mat-<shape class>`: the evidence histogram shows every shape class per aligner -/
+def shapeTag (c : Case) : String := opTag c ++ ":mat-" ++ shapeClass c
 
 end Biogo.Drive.AlignLinWire
